@@ -277,7 +277,7 @@ func main() {
 					kind = "outfile-error"
 				}
 				r.Eval(1)
-				r.Violation(kind+":"+fres.ErrClass()+":"+core.StripVolatile(fmt.Sprint(fres.Err)), w)
+				r.Violation(g12lib.NoSpace(kind+":"+fres.ErrClass()+":"+core.StripVolatile(fmt.Sprint(fres.Err))), w)
 			}
 			return
 		}
